@@ -34,6 +34,12 @@ def reexec():
     if env.get("PYTHONPATH"):
         pp.append(env["PYTHONPATH"])
     env["PYTHONPATH"] = os.pathsep.join(pp)
+    try:
+        # code under test must never be able to wait for terminal input
+        fd = os.open(os.devnull, os.O_RDONLY)
+        os.dup2(fd, 0)
+    except OSError:
+        pass
     os.execve(PY, [PY, os.path.join(ROOT, "run_check.py")] + sys.argv[1:], env)
 
 
